@@ -26,7 +26,7 @@ func main() {
 	deadline := time.Now().Add(time.Duration(ms) * time.Millisecond)
 	var stop atomic.Bool
 	var wg sync.WaitGroup
-	var pushed, popped, negLen, badLen atomic.Int64
+	var pushed, popped, negLen, badLen, confined atomic.Int64
 	run := func(f func(id int)) {
 		for g := 0; g < 4; g++ {
 			wg.Add(1)
@@ -69,27 +69,100 @@ func main() {
 			}
 		})
 	case "ring":
-		r := ringz.NewSync[[2]int](8)
-		run(func(id int) {
-			if r.Push([2]int{id, id}) {
-				pushed.Add(1)
+		// EVERY method of SyncRing is called concurrently on every shared ring: small
+		// capacities so that the consumers collide on the same head position and the
+		// producers on the same tail position all the time (3 producers, 4 consumers, one
+		// poller each for IsFull / IsEmpty / Len+Cap, one goroutine on the waiting forms).
+		spawn := func(f func()) {
+			wg.Add(1)
+			go func() {
+				defer wg.Done()
+				for !stop.Load() {
+					f()
+				}
+			}()
+		}
+		for _, capacity := range []int{2, 3, 4} {
+			ring := ringz.NewSync[[2]int](capacity)
+			r := &ring
+			for g := 0; g < 3; g++ {
+				id := g
+				spawn(func() {
+					if r.Push([2]int{id, id}) {
+						pushed.Add(1)
+					}
+				})
 			}
-		})
-		run(func(id int) {
-			if v, ok := r.Pop(); ok {
-				if v[0] != v[1] {
+			for g := 0; g < 4; g++ {
+				spawn(func() {
+					if v, ok := r.Pop(); ok {
+						if v[0] != v[1] {
+							badLen.Add(1)
+						}
+						popped.Add(1)
+					}
+				})
+			}
+			spawn(func() { _ = r.IsFull() })
+			spawn(func() { _ = r.IsEmpty() })
+			spawn(func() {
+				if n := r.Len(); n < 0 || n > r.Cap() {
 					badLen.Add(1)
 				}
-				popped.Add(1)
+			})
+			spawn(func() {
+				if r.PushWait([2]int{7, 7}, 0) {
+					pushed.Add(1)
+				}
+				if v, ok := r.PopWait(0); ok {
+					if v[0] != v[1] {
+						badLen.Add(1)
+					}
+					popped.Add(1)
+				}
+				if v, ok := r.PopWait(time.Millisecond); ok {
+					if v[0] != v[1] {
+						badLen.Add(1)
+					}
+					popped.Add(1)
+				}
+			})
+		}
+		// several rings per goroutine (WAVE6 class 10): each goroutine owns three rings that
+		// no other goroutine touches, uses them alternately and judges each against its own
+		// bounded-FIFO model
+		for g := 0; g < 2; g++ {
+			caps := []int{2, 4, 8}
+			rings := make([]ringz.SyncRing[[2]int], len(caps))
+			models := make([][]int, len(caps))
+			for i, c := range caps {
+				rings[i] = ringz.NewSync[[2]int](c)
 			}
-		})
-		run(func(id int) {
-			if n := r.Len(); n < 0 || n > r.Cap() {
-				badLen.Add(1)
-			}
-			_ = r.IsEmpty()
-			_ = r.IsFull()
-		})
+			k := 0
+			spawn(func() {
+				k++
+				i := k % len(rings)
+				if k%5 < 3 {
+					want := len(models[i]) < rings[i].Cap()
+					if rings[i].Push([2]int{k, k}) != want {
+						confined.Add(1)
+					} else if want {
+						models[i] = append(models[i], k)
+					}
+				} else {
+					v, ok := rings[i].Pop()
+					if ok != (len(models[i]) > 0) || (ok && (v[0] != models[i][0] || v[1] != v[0])) {
+						confined.Add(1)
+					}
+					if ok && len(models[i]) > 0 {
+						models[i] = models[i][1:]
+					}
+				}
+				if rings[i].Len() != len(models[i]) {
+					confined.Add(1)
+				}
+			})
+		}
 	default:
 		os.Exit(2)
 	}
@@ -98,5 +171,5 @@ func main() {
 	}
 	stop.Store(true)
 	wg.Wait()
-	fmt.Printf("pushed=%d popped=%d negative-len-samples=%d torn-or-out-of-range=%d\n", pushed.Load(), popped.Load(), negLen.Load(), badLen.Load())
+	fmt.Printf("pushed=%d popped=%d negative-len-samples=%d torn-or-out-of-range=%d confined-mismatch=%d\n", pushed.Load(), popped.Load(), negLen.Load(), badLen.Load(), confined.Load())
 }
